@@ -8,7 +8,11 @@ import (
 	_ "verif/checks/convert"
 	_ "verif/checks/exprs"
 	_ "verif/checks/flags"
+	_ "verif/checks/flow"
 	_ "verif/checks/funcparams"
+	_ "verif/checks/index"
+	_ "verif/checks/mkarray"
+	_ "verif/checks/ranges"
 	_ "verif/checks/literals"
 	_ "verif/checks/resolve"
 	_ "verif/checks/unittest"
